@@ -681,7 +681,7 @@ func c01Generated(r *ev.Recorder) {
 		b := roundTrip("gen.go", []byte(src), ggRealName, a2j.Hooks{})
 		r.Eval(1)
 		if b.Kind == "ok" && c.Devs <= 2 {
-			if b2 := roundTrip("gen.go", []byte(src), ggRealName, a2j.Hooks{EarlyAdd: true, UseFunc: func(int, string) bool { return true }}); b2.Kind != "ok" {
+			if b2 := roundTrip("gen.go", []byte(src), ggRealName, c01Hooks(true)); b2.Kind != "ok" {
 				b = b2
 				b.Kind += "(early-add+Func-forms)"
 			}
